@@ -139,7 +139,7 @@ type shot struct {
 }
 
 func (s shot) Name() string {
-	return fmt.Sprintf("status=%d fail=%s bodyfail=%v tag=%q auto=%v notagonly=%v elems=%d path=%s", s.Status, s.Fail, s.BodyFail, s.AmmoTag, s.Auto, s.NoTag, s.Elems, s.Path)
+	return fmt.Sprintf("status=%d fail=%s bodyfail=%v tag=%q auto=%v notagonly=%v elems=%d path=%s debug=%v trace=%v", s.Status, s.Fail, s.BodyFail, s.AmmoTag, s.Auto, s.NoTag, s.Elems, s.Path, s.Debug, s.Trace)
 }
 
 func runShot(s shot) (verr error) {
@@ -223,6 +223,11 @@ func c10shots(thorough bool) []shot {
 		if thorough || st%50 == 0 {
 			out = append(out, shot{Tier: "status", Status: st, AmmoTag: "t", Path: "/a", Debug: true, Trace: true})
 			out = append(out, shot{Tier: "status", Status: st, BodyFail: true, AmmoTag: "t", Path: "/a"})
+			if st%50 == 0 {
+				// the body breaks off while the gun is logging the answer (debug level reads it first)
+				out = append(out, shot{Tier: "status", Status: st, BodyFail: true, AmmoTag: "t", Path: "/a", Debug: true})
+				out = append(out, shot{Tier: "status", Status: st, BodyFail: true, AmmoTag: "t", Path: "/a", Debug: true, Trace: true})
+			}
 		}
 	}
 	for _, fk := range failKinds {
